@@ -759,17 +759,31 @@ func init() {
 			"((draw a (distinct (i 0 50) 0 8 (id))) (if (lenge a 4) (failnow 1)) (if (lenge a 2) (failnow 2)))",
 			"((draw a (i 0 1000)) (draw b (slice (bool) 0 5)) (if (ge a 500) (failnow 3)) (if (lenge b 2) (failnow 4)))",
 		}
-		for i := 0; i < 40*scale; i++ {
+		ncollapse := len(collapseCorpus) * 4 * scale
+		for i := 0; i < 40*scale+ncollapse; i++ {
 			var prog *SX
-			if r.chance(1, 2) {
+			fl := baseFlags()
+			fl.Seed = r.u64() | 1
+			fl.ShrinkTime = []time.Duration{0, 30 * time.Second, time.Duration(1+r.intn(4000)) * time.Microsecond}[r.intn(3)]
+			if i < ncollapse {
+				// minimization that makes the recording collapse (see collapseCorpus)
+				prog = mustSX(collapseCorpus[i%len(collapseCorpus)])
+				fl.ShrinkTime = 30 * time.Second
+				m.tag("collapse-corpus")
+			} else if r.chance(1, 2) {
 				prog = mustSX(progs[r.intn(len(progs))])
 			} else {
 				prog = r.engineProgram()
 			}
-			fl := baseFlags()
-			fl.Seed = r.u64() | 1
-			fl.ShrinkTime = []time.Duration{0, 30 * time.Second, time.Duration(1+r.intn(4000)) * time.Microsecond}[r.intn(3)]
 			run := runCheckTB(prog, fl, "c05", nil)
+			if run.escaped != nil {
+				// Check itself panicked: minimization did not end with a (smaller) failing test case
+				p := flagsStr(fl)
+				p["prog"] = prog.String()
+				m.eval(prog.String()+fmt.Sprint(fl.Seed), true)
+				m.violate(violation{"C05", "crash", fmt.Sprintf("Check crashed instead of reporting the failure: %v", run.escaped), p})
+				continue
+			}
 			kind, _, _ := verdictMsg(run.verdict)
 			if kind != "failed" && kind != "panic" {
 				m.eval(prog.String()+fmt.Sprint(fl.Seed), false)
@@ -827,6 +841,20 @@ func init() {
 				m.violate(violation{"C05", "site", what, p})
 			}
 		}
+	}
+}
+
+func init() {
+	replayers["crash"] = func(v violation, tmp string) (bool, string) {
+		prog, err := parseSX(v.Params["prog"])
+		if err != nil {
+			return true, "bad program"
+		}
+		run := runCheckTB(prog, parseFlags(v.Params), "replay", nil)
+		if run.escaped != nil {
+			return true, fmt.Sprintf("Check crashed: %v", run.escaped)
+		}
+		return false, run.verdict
 	}
 }
 
